@@ -84,8 +84,9 @@ Lemma fwrapped_ok f i : InvF f ->
   exists w, fwrapped f i = Ok w /\ w = (first f + i mod flen f) mod flen f /\ w < flen f.
 Proof.
   intros I. unfold InvF in I. unfold fwrapped, rmod.
+  destruct (Nat.eqb_spec (flen f) 0); [lia|]. simpl. unfold rmod.
   destruct (Nat.eqb_spec (flen f) 0); [lia|]. eexists; split; [reflexivity|]. split.
-  - now rewrite mod_add_wrap by lia.
+  - reflexivity.
   - apply Nat.mod_upper_bound; lia.
 Qed.
 
